@@ -669,6 +669,30 @@ func (a *panicAudit) boundsSafe(fn *ssa.Function, in ssa.Instruction) (bool, str
 			}
 		}
 	}
+	// (9) i := slices.Index/IndexFunc(s, ...), and the access is reached only when i >= 0: then 0 <= i < len(s),
+	// which covers s[i], s[:i], s[i:], s[i+1:]
+	if ok, why := a.foundIndex(in, base, idx, isSlice); ok {
+		return true, why
+	}
+	// (8) s[strings.(Last)Index*(s, x)+1:]: the index functions answer -1..len(s)-1, so the low bound is 0..len(s)
+	if isSlice {
+		if sl := in.(*ssa.Slice); sl.High == nil && sl.Max == nil && sl.Low != nil {
+			if bo, ok := sl.Low.(*ssa.BinOp); ok && bo.Op == token.ADD {
+				if k, ok := constInt(bo.Y); ok && k == 1 {
+					if c, ok := bo.X.(*ssa.Call); ok {
+						if sc := c.Common().StaticCallee(); sc != nil {
+							switch sc.String() {
+							case "strings.LastIndexByte", "strings.IndexByte", "strings.LastIndex", "strings.Index", "strings.IndexRune", "strings.IndexAny", "strings.LastIndexAny":
+								if c.Common().Args[0] == base {
+									return true, sc.String() + " of the same string answers -1..len-1, so +1 is a valid lower bound"
+								}
+							}
+						}
+					}
+				}
+			}
+		}
+	}
 	// (7) submatch slice of a regexp compiled from a constant: non-nil result has 1+NumSubexp entries
 	if need >= 1 {
 		if ok, why := a.submatchIndex(in.Block(), base, need); ok {
@@ -1186,6 +1210,109 @@ func (a *panicAudit) descendingLoop(fn *ssa.Function, at *ssa.BasicBlock, base, 
 		}
 		if (bo.Op == token.GEQ && c == 0 || bo.Op == token.GTR && c == -1) && b.Succs[0].Dominates(at) {
 			return true, "descending loop from len-1 while i >= 0"
+		}
+	}
+	return false, ""
+}
+
+// foundIndex: every index operand of the access is i or i+1 where i is the result of slices.Index /
+// slices.IndexFunc (or strings.Index*) over the very same base, and the access is dominated by the
+// "found" side of a test i >= 0 / i != -1 / !(i < 0).
+func (a *panicAudit) foundIndex(in ssa.Instruction, base, idx ssa.Value, isSlice bool) (bool, string) {
+	var ops []ssa.Value
+	if isSlice {
+		sl := in.(*ssa.Slice)
+		if sl.Max != nil {
+			return false, ""
+		}
+		for _, v := range []ssa.Value{sl.Low, sl.High} {
+			if v != nil {
+				ops = append(ops, v)
+			}
+		}
+	} else {
+		ops = []ssa.Value{idx}
+	}
+	if len(ops) == 0 {
+		return false, ""
+	}
+	var found *ssa.Call
+	for _, v := range ops {
+		plus1 := false
+		if bo, ok := v.(*ssa.BinOp); ok && bo.Op == token.ADD {
+			if k, ok := constInt(bo.Y); ok && k == 1 {
+				v = bo.X
+				plus1 = true
+			}
+		}
+		if plus1 && !isSlice {
+			return false, "" // s[i+1] needs i+1 < len
+		}
+		c, ok := v.(*ssa.Call)
+		if !ok {
+			return false, ""
+		}
+		sc := c.Common().StaticCallee()
+		if sc == nil {
+			return false, ""
+		}
+		o := sc.Origin()
+		if o == nil {
+			o = sc
+		}
+		name := ""
+		if o.Pkg != nil {
+			name = o.Pkg.Pkg.Path() + "." + o.Name()
+		}
+		switch name {
+		case "slices.Index", "slices.IndexFunc", "strings.Index", "strings.IndexByte", "strings.IndexRune", "strings.LastIndex", "strings.LastIndexByte":
+		default:
+			return false, ""
+		}
+		if c.Common().Args[0] != base {
+			return false, ""
+		}
+		if found != nil && found != c {
+			return false, ""
+		}
+		found = c
+	}
+	at := in.Block()
+	for d := at; d != nil; d = d.Idom() {
+		id := d.Idom()
+		if id == nil {
+			break
+		}
+		iff, isIf := id.Instrs[len(id.Instrs)-1].(*ssa.If)
+		if !isIf {
+			continue
+		}
+		bo, isB := iff.Cond.(*ssa.BinOp)
+		if !isB || bo.X != ssa.Value(found) {
+			continue
+		}
+		k, isK := constInt(bo.Y)
+		if !isK {
+			continue
+		}
+		// which successor is the "found" side?
+		var side *ssa.BasicBlock
+		switch {
+		case bo.Op == token.GEQ && k == 0, bo.Op == token.GTR && k == -1, bo.Op == token.NEQ && k == -1:
+			side = id.Succs[0]
+		case bo.Op == token.LSS && k == 0, bo.Op == token.LEQ && k == -1, bo.Op == token.EQL && k == -1:
+			side = id.Succs[1]
+		}
+		if side == nil {
+			continue
+		}
+		// the access must be reachable only through that side: it dominates, or the other side cannot reach the access
+		other := id.Succs[0]
+		if other == side {
+			other = id.Succs[1]
+		}
+		if (side.Dominates(at) && len(side.Preds) == 1) || a.p.blockDies(other) || !a.p.reachesLive(other, at) {
+			return true, "the index is a position found in the same slice (not -1 on this path), so it is within bounds"
 		}
 	}
 	return false, ""
